@@ -157,6 +157,24 @@ theorem C04_invoke_succeeds_when_available_eager (p : Program) (hok : AllOk p.ct
     (step p.ctx p.fns (runProgram p).1 i (.invoke s f info)).2.v = .ok :=
   program_invoke_available_eager p hok hd i s f info fn params w0 hf hnf hs hpp havail hnocyc
 
+/-- the optional half, "exactly when … that constructor's dependencies are unavailable": at any moment of a resolution
+    (`st0` = the container when it began, `st` = now, `Stk` = what the on-stack marks mean), the provider loop of
+    `paramSingle.Build` hands out the zero value in place of constructor `n` only for an optional parameter and only
+    when `n` failed for a *missing type* — a required single key in the closure of `n` without a visible constructor -/
+theorem C04_optional_zero_is_justified (ctx : Ctx) (st0 : St) (fuel n : Nat) (st : St) (h0 : RegFrame st0 st)
+    (hstk : Stk st0 st (ReachC st0 n (st0.ctor n).origS)) (env : TyEnv) (k : Key) (opt : Bool) (cid : Nat) (z : Val) (s2 : St)
+    (h : providerStep env k opt cid (callCtor ctx fuel n (st0.ctor n).origS st) = (.ok (some z), s2)) :
+    opt = true ∧ ∃ e ks, (callCtor ctx fuel n (st0.ctor n).origS st).1 = .error (.err e) ∧
+      e.rootCause = .missingTypes ks ∧ ks ≠ [] ∧
+      ∀ k' ∈ ks, ∃ c, st0.allProviders c k' = [] ∧ ∃ w, ReachC st0 n (st0.ctor n).origS w ∧ ReqNode st0 w c k' :=
+  optional_absorbs_real_missing ctx st0 fuel n st h0 hstk env k opt cid z s2 h
+
+/-- non-vacuity (a test): between operations no mark is set, so `Stk` holds of every reachable container -/
+example (p : Program) (T : Who → Prop) : Stk (runProgram p).1 (runProgram p).1 T := by
+  intro m hm
+  rw [(program_safeInv p).nb.h.ctorIdle m] at hm
+  cases hm
+
 /-- non-vacuity (a test): with one parameterless provider of `k`, a consumer of `k` meets both hypotheses -/
 example : let st : St := { scopes := [{ parent := none, providers := [(⟨5, "", ""⟩, [0])] }], ctors := [default] }
     (∀ c k, (InvokeReq 0 [.single ⟨5, "", ""⟩ false] c k ∨
@@ -208,6 +226,7 @@ def demoFine : Program := { demoCycle with ops := [.provide 0 1 {}, .provide 0 2
 #print axioms C04_runtime_cycle_is_real
 #print axioms C04_invoke_succeeds_when_available
 #print axioms C04_invoke_succeeds_when_available_eager
+#print axioms C04_optional_zero_is_justified
 #print axioms C04_required_missing
 #print axioms C04_optional_missing
 #print axioms C04_shallow
